@@ -21,17 +21,27 @@ deriving Repr
 
 def decimal (n : Int) : String := toString n
 
+mutual
 /-- `Display` of values whose text is determined (no floats, no maps, no handles) -/
-partial def display? : Val → Option String
+def display? : Val → Option String
   | .null => some "null"
   | .str s => some ("\"" ++ s ++ "\"")
   | .char c => some ("'" ++ String.singleton c ++ "'")
   | .int i => some (decimal i.toInt)
   | .bool b => some (if b then "true" else "false")
   | .arr _ xs => do
-    let parts ← xs.mapM display?
+    let parts ← displayList? xs
     pure ("[" ++ ", ".intercalate parts ++ "]")
   | _ => none
+/-- the texts of the elements, in order (`xs.mapM display?`, written structurally so that the
+definition is total and transparent to the kernel) -/
+def displayList? : List Val → Option (List String)
+  | [] => some []
+  | x :: xs => do
+    let a ← display? x
+    let as ← displayList? xs
+    pure (a :: as)
+end
 
 def parseDecimal? (s : String) : Option Int :=
   -- Rust `str::parse::<i64>`: optional sign, at least one ASCII digit, nothing else
